@@ -127,6 +127,15 @@ class World:
         extra = proj.stub_toolchain_env(os.devnull)
         extra.update({'CP': 'vwrap-cp -f', 'VSTUB_ENVKEYS': 'NONE'})
         self.plain_env = core.base_env(extra)
+        # every other chunk: the temporary directory is on ANOTHER file system than the build
+        # directory (a rename out of it is a copy there)
+        self.tmp_elsewhere = None
+        if case.get('chunk', 0) % 2 == 1 and os.path.isdir('/dev/shm') and \
+           os.access('/dev/shm', os.W_OK) and \
+           os.stat('/dev/shm').st_dev != os.stat(self.root).st_dev:
+            import tempfile
+            self.tmp_elsewhere = tempfile.mkdtemp(prefix='verif-c10-', dir='/dev/shm')
+            self.plain_env['TMPDIR'] = self.tmp_elsewhere
 
     def env(self, **fault):
         e = dict(self.plain_env)
@@ -252,6 +261,8 @@ class World:
                 w('tc.bfg', "compile_options(['-DTC=1'], 'c')\n" + stmt + '\n')
 
     def cleanup(self):
+        if self.tmp_elsewhere:
+            shutil.rmtree(self.tmp_elsewhere, ignore_errors=True)
         core.rmtree(self.root)
         shutil.rmtree(self.snap, ignore_errors=True)
         shutil.rmtree(self.snap + '2', ignore_errors=True)
@@ -530,6 +541,9 @@ def run_case(case):
                                              os.path.relpath(e['path'], w.root)]
                                             for e in bounds[:12]])
         res.classes.update('%s:%s' % (e['op'], e['phase']) for e in bounds)
+        if w.tmp_elsewhere:
+            res.ev('runs-with-TMPDIR-on-another-file-system')
+            res.classes.add('TMPDIR:other-file-system')
         return res
     finally:
         w.cleanup()
